@@ -359,13 +359,16 @@ def zone_of(tags, crlf=False):
 
 
 def combos_of(pool, n, quick):
-    """all n-tuples of the pool; for pools of more than 6 entries (float tokens) the larger tuples are thinned to a
-    covering set: every entry at every record position next to 3 (quick, n=2) / 9 (n=3) different neighbours"""
+    """all n-tuples of the pool, thinned where the full product is too large: pools of more than 6 entries (float
+    tokens) for n >= 2 (quick) / n = 3, and every pool for n = 3 in the quick tier.  The thinned sets are covering:
+    every entry stands at every record position, next to several different neighbours"""
     k = len(pool)
-    if k <= 6 or n == 1 or (n == 2 and not quick):
-        return itertools.product(pool, repeat=n)
+    if n == 1 or (n == 2 and (k <= 6 or not quick)) or (n == 3 and k <= 6 and not quick):
+        return list(itertools.product(pool, repeat=n))
     if n == 2:
         return [(pool[i], pool[(i + d) % k]) for i in range(k) for d in (0, 1, 3)]
+    if quick:
+        return [(pool[i], pool[(i + d) % k], pool[(i + 2 * d) % k]) for i in range(k) for d in (1, 2)]
     return [(pool[i], pool[(i + d) % k], pool[(i + e) % k]) for i in range(k) for d in (0, 1, 3) for e in (0, 2, 5)]
 
 
@@ -379,7 +382,7 @@ def gen_delimited(fmt, tier, pools):
     spec = FORMATS[fmt]
     cols = spec["cols"]
     quick = tier == "quick"
-    nmax = 2 if quick else 3
+    nmax = 3
     hdr = header_lines_of(fmt)
     raw_ok = fmt not in ("vcf",)
     le = ("lazy", "eager")
@@ -396,6 +399,9 @@ def gen_delimited(fmt, tier, pools):
                 for r, p in enumerate(combo):
                     rows[r][c] = p[1](r, c)
                 tags = [p[2] for p in combo]
+                if quick and n == 3:
+                    yield zone_of(tags), render(fmt, rows), (le[(c + len(rows[0][c])) % 2],), name
+                    continue
                 yield zone_of(tags), render(fmt, rows), (le if quick or n == 3 else modes_all), name
                 if c in (0, len(cols) - 1) or (numeric and not quick):
                     yield zone_of(tags, True), render(fmt, rows, crlf=True), le, name
@@ -456,6 +462,14 @@ def fasta_text(records, width, crlf=False):
     return out
 
 
+def width_tuples(m, quick):
+    """widths of m consecutive fields from {1,2,7}: every tuple; in the quick tier tuples of 6 are thinned to the 27 whose
+    second half repeats the first half rotated (every width at every position)"""
+    if m < 6 or not quick:
+        return list(itertools.product((1, 2, 7), repeat=m))
+    return [t + (t[1], t[2], t[0]) for t in itertools.product((1, 2, 7), repeat=3)]
+
+
 def gen_fasta(tier):
     """yields (format, zone, text, modes, focus)"""
     quick = tier == "quick"
@@ -480,9 +494,8 @@ def gen_fasta(tier):
     # lower case / N / IUPAC symbols are kept as written
     yield "fasta", "symbols", fasta_text([("a", "acgtnNRYk"), ("b", "NNnn")], 4), le, "symbols"
     # two-line FASTA (explicit buffer type): all width combinations of names and sequences over 1..3 records
-    nmax = 2 if quick else 3
-    for n in range(1, nmax + 1):
-        for ws in itertools.product((1, 2, 7), repeat=2 * n):
+    for n in (1, 2, 3):
+        for ws in width_tuples(2 * n, quick):
             recs = [(t_text(ws[2 * r], r, 0), t_dna(ws[2 * r + 1], r, 1)) for r in range(n)]
             for crlf in (False, True):
                 yield ("fasta2", ("crlf" if crlf else "plain"), fasta_text(recs, 100, crlf),
@@ -492,10 +505,9 @@ def gen_fasta(tier):
 def gen_fastq(tier):
     quick = tier == "quick"
     le = ("lazy", "eager")
-    nmax = 2 if quick else 3
     specials = ["@", "+", "!", "~", ">"]
-    for n in range(1, nmax + 1):
-        for ws in itertools.product((1, 2, 7), repeat=2 * n):
+    for n in (1, 2, 3):
+        for ws in width_tuples(2 * n, quick):
             for variant in range(3):
                 for crlf in (False, True):
                     if crlf and variant and n > 1 and (quick or n == 3):
